@@ -161,11 +161,16 @@ def run(ctx):
         if any(b['replacements'][0][0] != 'M' for b in pcfg.base):
             for N in (1, rng.randint(2, 9)):
                 outs = []
-                for rep in range(2):
-                    buf = io.StringIO()
-                    with contextlib.redirect_stdout(buf), contextlib.redirect_stderr(io.StringIO()):
-                        HoneywordSession(pcfg, 'random_walk').run(limit=N)
-                    outs.append(buf.getvalue())
+                try:
+                    for rep in range(2):
+                        buf = io.StringIO()
+                        with contextlib.redirect_stdout(buf), contextlib.redirect_stderr(io.StringIO()):
+                            HoneywordSession(pcfg, 'random_walk').run(limit=N)
+                        outs.append(buf.getvalue())
+                except Exception as e:
+                    viol.append({'property': 'C16', 'kind': 'walk-raised', 'error': repr(e)[:200], 'mode': 'random_walk',
+                                 'witness': {'spec': spec, 'limit': N}})
+                    continue
                 lines = outs[0].split('\n')[:-1]
                 cases += 1
                 if len(lines) != N:
@@ -173,8 +178,13 @@ def run(ctx):
                 if outs[0] != outs[1]:
                     viol.append({'property': 'C16', 'kind': 'random-walk-not-reproducible', 'witness': {'spec': spec, 'limit': N}})
                 buf = io.StringIO()
-                with contextlib.redirect_stdout(buf), contextlib.redirect_stderr(io.StringIO()):
-                    HoneywordSession(pcfg, 'honeywords').run(limit=N)
+                try:
+                    with contextlib.redirect_stdout(buf), contextlib.redirect_stderr(io.StringIO()):
+                        HoneywordSession(pcfg, 'honeywords').run(limit=N)
+                except Exception as e:
+                    viol.append({'property': 'C16', 'kind': 'walk-raised', 'error': repr(e)[:200], 'mode': 'honeywords',
+                                 'witness': {'spec': spec, 'limit': N}})
+                    continue
                 if len(buf.getvalue().split('\n')) - 1 != N:
                     viol.append({'property': 'C16', 'kind': 'count', 'mode': 'honeywords', 'limit': N, 'witness': {'spec': spec, 'limit': N}})
     if ctx.driver_ok:
@@ -216,8 +226,11 @@ def replay(ctx, payload):
     elif 'limit' in w:
         from lib_guesser.honeyword_session import HoneywordSession
         buf = io.StringIO()
-        with contextlib.redirect_stdout(buf), contextlib.redirect_stderr(io.StringIO()):
-            HoneywordSession(pcfg, 'random_walk').run(limit=w['limit'])
-        if len(buf.getvalue().split('\n')) - 1 != w['limit']:
-            out.append({'kind': 'count'})
+        try:
+            with contextlib.redirect_stdout(buf), contextlib.redirect_stderr(io.StringIO()):
+                HoneywordSession(pcfg, 'random_walk').run(limit=w['limit'])
+            if len(buf.getvalue().split('\n')) - 1 != w['limit']:
+                out.append({'kind': 'count'})
+        except Exception as e:
+            out.append({'kind': 'walk-raised', 'error': repr(e)})
     return out
